@@ -393,6 +393,10 @@ class CFG:
     def edge_targets(self, nid: int, label: str) -> list[int]:
         return [s for s, l in self.nodes[nid].succ if l == label]
 
+    def falls_off_end(self) -> bool:
+        """some path reaches the end of the function without a return (implicit None)"""
+        return self.can_reach(self.entry, self.fall) if self.nodes[self.fall].pred else False
+
     def exits_only_to(self, start: int, avoid: set[int], pred) -> bool:
         """All terminal statements (return/raise) reachable from start (avoiding ``avoid``)
         satisfy ``pred(node)``; falls off the end counts as a terminal `fall`."""
